@@ -15,6 +15,8 @@ themselves, every other character is ``%XX``.  JSON values are written in prefix
     mode file intree|bare | mode dict | mode direct
     proc <type-enc> A<n>|A- v.. K<m>|K- k<enc> v ..    ('-': the key is absent from the dictionary)
     ent -|i<int>|s<enc>
+    ent same                                        the previous entity dictionary listed once more (the very
+                                                    same dict object when a dictionary is loaded)
     comp <type-enc> A.. K..                         component of the last `ent`
     rx s<enc>                                       string given to the three regular expressions
     step clear <hid> | step replace <path-enc> <newhid> | step reload | step load2
@@ -23,6 +25,17 @@ themselves, every other character is ``%XX``.  JSON values are written in prefix
                                                     under the key of an existing one; the world handle
                                                     cleared and called again; a second WorldFromFileHandle
                                                     for the same file, stored next to the first, loaded
+    tree2 <path-enc> handle <hid> | map <mid>       a second, bigger resource tree (`outer`)
+    step mount <ip-enc|-> <key-enc>                 outer[key] = the map at path ip of the tree above the world
+                                                    handle (-: its root map); paths of later steps and
+                                                    references are then read from the root of `outer`
+    step unmount                                    outer.clear(): what was mounted directly in it is a root again
+    react <label> <method> <k> : <op> ; <op> ..     what the k-th call (0-based) of that method of the instance
+                                                    does to the world it belongs to: enable 0|1 |
+                                                    spawn <id|-> <cid,..> (create_entity) | add <id> <cid> |
+                                                    remove <id> <cid> | dispatch <event>; labels: i<n> item of
+                                                    the description, x<n> n-th instance built by a reaction
+                                                    (handle modes only, no raise=)
     step call                                       world_handle() once more (cached world, or a new load after
                                                     a failed one); allowed for `mode dict` too, like reload
     cls .. raise=<n,..>                             the n-th constructor calls of the class (0-based, counted
@@ -48,6 +61,11 @@ Observations:
     pre <n>                              callbacks received before dispatching was enabled
     res-enable ok|raised <Exception>
     cb <label> <method> <args>           callback log: () | E<id>,W | HW,W
+  with `react` lines the callback log is in the order of the calls (no sorting: the model follows the
+  `hint <load> <labels>` line the runner hands over and validates it), and after it come
+    re-enabled <n>                       times the program had to enable dispatching again (a callback left
+                                         it suspended; at most three)
+    post-enabled / post-procs / post-ents / post-ent / post-inst         the world once more
 Values: JSON tokens, C<cid> class, P<oid> named object, R<hid>.<n> value built by the n-th load() of a
 handle, H<hid> handle, M<mid> sub-map, HW the world handle, W the world.  Labels: i<n> the n-th instance that was
 constructed, d0/d1 the default processors.
@@ -184,6 +202,8 @@ class Scenario:
         self.ents = []        # [id token, [comps]]
         self.rx = []
         self.steps = []
+        self.reactions = {}
+        self.tree2 = []
         self.raises = {}
         for ln in lines:
             t = ln.split()
@@ -207,6 +227,19 @@ class Scenario:
                     self.names.append((dec(t[1]), 'str', dec(t[3][1:])))
                 else:
                     raise ValueError(ln)
+            elif k == 'react':
+                assert t[4] == ':'
+                ops, cur = [], []
+                for x in t[5:] + [';']:
+                    if x == ';':
+                        if cur:
+                            ops.append(cur)
+                        cur = []
+                    else:
+                        cur.append(x)
+                self.reactions[(t[1], t[2], int(t[3]))] = ops
+            elif k == 'tree2':
+                self.tree2.append((dec(t[1]), t[2], int(t[3])))
             elif k == 'tree':
                 payload = int(t[3]) if t[2] in ('handle', 'map') else (len(t) > 3 and t[3] == 'composite')
                 self.tree.append((dec(t[1]), t[2], payload))
@@ -217,6 +250,8 @@ class Scenario:
                 a, kw, rest = parse_args(t[2:])
                 assert not rest
                 self.procs.append((dec(t[1]), a, kw))
+            elif k == 'ent' and t[1] == 'same':
+                self.ents.append(self.ents[-1])          # the same list object: an alias
             elif k == 'ent':
                 self.ents.append([t[1], []])
             elif k == 'comp':
@@ -230,8 +265,10 @@ class Scenario:
                     self.steps.append(('clear', int(t[2])))
                 elif t[1] == 'replace':
                     self.steps.append(('replace', dec(t[2]), int(t[3])))
-                elif t[1] in ('reload', 'load2', 'call'):
+                elif t[1] in ('reload', 'load2', 'call', 'unmount'):
                     self.steps.append((t[1],))
+                elif t[1] == 'mount':
+                    self.steps.append(('mount', dec(t[2]), dec(t[3])))
                 else:
                     raise ValueError(ln)
             elif k == 'hint':
@@ -284,6 +321,11 @@ class Run:
         self.keep = []
         self.handles = {}
         self.ctor_calls = {}
+        self.calls = {}
+        self.spawning, self.spawned = False, 0
+        self.world = None
+        self.hints = []
+        self.load_no = 0
         self.returned = []     # worlds handle() has returned (kept alive: identity is observed)
 
     def register(self, obj, tok):
@@ -295,8 +337,12 @@ class Run:
         run = self
 
         def __init__(self, *args, **kwargs):
-            self._label = run.counter
-            run.counter += 1
+            if run.spawning:
+                self._label = f'x{run.spawned}'
+                run.spawned += 1
+            else:
+                self._label = f'i{run.counter}'
+                run.counter += 1
             k = run.ctor_calls.get(cid, 0)
             run.ctor_calls[cid] = k + 1
             if k in run.sc.raises.get(cid, ()):
@@ -306,7 +352,12 @@ class Run:
         def make(mname):
             def method(self, *args, **kwargs):
                 # no strong reference to the receiver is kept (the world holds handlers weakly)
-                run.log.append((run.label(self), mname, args, kwargs))
+                lab = run.label(self)
+                run.log.append((lab, mname, args, kwargs))
+                k = run.calls.get((lab, mname), 0)
+                run.calls[(lab, mname)] = k + 1
+                for op in run.sc.reactions.get((lab, mname, k), ()):
+                    run.react(op)
             method.__name__ = mname
             return method
         ns = {'__init__': __init__}
@@ -399,6 +450,34 @@ class Run:
                 value = world_handle
                 self.world_parent, self.world_key = parent, parts[-1]
             parent[parts[-1]] = value
+        self.outer = desper.ResourceMap()
+        self.register(self.outer, 'M1000000')
+        for path, kind, payload in self.sc.tree2:
+            parts = path.split('/')
+            parent = self.outer
+            for p in parts[:-1]:
+                parent = parent.maps[p]
+            if kind == 'map':
+                value = desper.ResourceMap()
+                self.register(value, f'M{payload}')
+            else:
+                value = self.handle_class(payload)
+                self.handles[payload] = value
+                self.register(value, f'H{payload}')
+            parent[parts[-1]] = value
+
+    def current_root(self, handle):
+        """the root of the tree the world handle is in now"""
+        m = handle.parent
+        while m.parent is not None:
+            m = m.parent
+        return m
+
+    @staticmethod
+    def walk(root, path):
+        for p in path.split('/'):
+            root = root.maps[p]
+        return root
 
     # ---------------------------------------------------------------- description
     def item_dict(self, item, resolve_types):
@@ -416,12 +495,18 @@ class Run:
             d['processors'] = [self.item_dict(p, resolve_types) for p in self.sc.procs]
         if self.sc.ents:
             ents = []
-            for idtok, comps in self.sc.ents:
+            built = {}
+            for entry in self.sc.ents:
+                idtok, comps = entry
+                if resolve_types and id(entry) in built:
+                    ents.append(built[id(entry)])          # listed again: the same dictionary object
+                    continue
                 e = {}
                 if idtok != '-':
                     e['id'] = ent_id(idtok)
                 if comps or idtok == '-':
                     e['components'] = [self.item_dict(c, resolve_types) for c in comps]
+                built[id(entry)] = e
                 ents.append(e)
             d['entities'] = ents
         return d
@@ -443,7 +528,7 @@ class Run:
         if type(inst) is desper.CoroutineProcessor:
             return 'd1'
         lab = getattr(inst, '_label', None)
-        return '?' if lab is None else f'i{lab}'
+        return '?' if lab is None else lab
 
     def ref(self, inst):
         return f'{self.label(inst)}:{self.ids.get(id(type(inst)), "?")}'
@@ -472,7 +557,7 @@ class Run:
             a = '?'
         return (lab, mname, a)
 
-    def dump(self, world, handle):
+    def dump(self, world, handle, post=False):
         obs = self.obs
         obs.append(f'enabled {int(world.dispatch_enabled)}')
         procs = list(world.processors)
@@ -485,9 +570,9 @@ class Run:
             comps += cs
             obs.append(f'ent {show_id(e)} ' + (','.join(self.ref(c) for c in cs) or '-'))
         for inst in procs + comps:
-            if hasattr(inst, '_label'):
+            if str(getattr(inst, '_label', '')).startswith('i'):
                 obs.append(self.show_inst(inst))
-        if self.sc.mode == 'file':
+        if self.sc.mode == 'file' and not post:
             loaded = []
             for hid in sorted(self.handles):
                 n = self.handles[hid].count - self.counts_before.get(hid, 0)
@@ -511,12 +596,41 @@ class Run:
                 out.append(c)
         return out + sorted(run, key=key)
 
+    def react(self, op):
+        """one operation of a scripted reaction, on the world that is being observed"""
+        w = self.world
+        if op[0] == 'enable':
+            w.dispatch_enabled = bool(int(op[1]))
+        elif op[0] == 'dispatch':
+            w.dispatch(op[1])
+        elif op[0] == 'spawn':
+            self.spawning = True
+            try:
+                comps = [self.cls[int(c)]() for c in op[2].split(',') if c and c != '-']
+            finally:
+                self.spawning = False
+            w.create_entity(*comps, entity_id=ent_id(op[1]))
+        elif op[0] == 'add':
+            self.spawning = True
+            try:
+                comp = self.cls[int(op[2])]()
+            finally:
+                self.spawning = False
+            w.add_component(ent_id(op[1]), comp)
+        elif op[0] == 'remove':
+            w.remove_component(ent_id(op[1]), self.cls[int(op[2])])
+        else:
+            raise ValueError(op)
+
     # ---------------------------------------------------------------- run
     def one_load(self, handle, load):
         """one load and its observation block"""
         sc = self.sc
         self.counter = 0
         self.log = []
+        self.calls = {}
+        self.spawned = 0
+        self.load_no += 1
         self.counts_before = {hid: h.count for hid, h in self.handles.items()}
         try:
             if sc.mode == 'direct':
@@ -537,6 +651,27 @@ class Run:
         self.obs.append('res ok')
         self.dump(world, handle)
         self.obs.append(f'pre {len(self.log)}')
+        self.world = world
+        if sc.reactions:
+            n = 0
+            try:
+                world.dispatch_enabled = True
+                while not world.dispatch_enabled and n < 3:
+                    n += 1
+                    world.dispatch_enabled = True
+                self.obs.append('res-enable ok')
+            except RecursionError:
+                self.obs.append('res-enable hang')
+            except Exception as e:    # noqa
+                self.obs.append('res-enable raised ' + type(e).__name__)
+            self.obs.append(f're-enabled {n}')
+            for e in self.log:
+                self.obs.append('cb ' + ' '.join(self.show_cb(world, handle, e)))
+            self.hints.append(f'hint {self.load_no} ' + (','.join(e[0] for e in self.log) or '-'))
+            k = len(self.obs)
+            self.dump(world, handle, post=True)
+            self.obs[k:] = ['post-' + o for o in self.obs[k:]]
+            return
         if sc.mode != 'direct':
             try:
                 world.dispatch_enabled = True
@@ -583,9 +718,17 @@ class Run:
             for st in sc.steps:
                 if st[0] == 'clear':
                     self.handles[st[1]].clear()
+                elif st[0] == 'mount':
+                    root = self.current_root(handle)
+                    obj = root if st[1] == '-' else self.walk(root, st[1])
+                    parts = st[2].split('/')
+                    parent = self.outer if len(parts) == 1 else self.walk(self.outer, '/'.join(parts[:-1]))
+                    parent[parts[-1]] = obj
+                elif st[0] == 'unmount':
+                    self.outer.clear()
                 elif st[0] == 'replace':
                     parts = st[1].split('/')
-                    parent = self.root
+                    parent = self.current_root(handle)
                     for p in parts[:-1]:
                         parent = parent.maps[p]
                     value = self.handle_class(st[2])
@@ -608,7 +751,7 @@ class Run:
                     self.world_parent[f'{self.world_key}~{k}'] = other
                     self.one_load(other, lambda: other())
                     k += 1
-            return self.obs, []
+            return self.obs, self.hints
         finally:
             shutil.rmtree(tmp, ignore_errors=True)
             if saved is None:
